@@ -1,7 +1,7 @@
 """Shared machinery of ./check: regenerate, prove, build, tie, report.
 
 Every property module (checks/cXX.py) defines `run(ctx)` and uses the helpers below.  The
-driver never writes KNOWN_FINDINGS.jsonl; evidence/<id>.json is rewritten on every run.
+driver never writes KNOWN_FINDINGS.txt; evidence/<id>.json is rewritten on every run.
 """
 import fcntl
 import hashlib
@@ -401,7 +401,7 @@ def strip_comments(text):
 
 
 def load_known(prop):
-    path = os.path.join(VERIF, "KNOWN_FINDINGS.jsonl")
+    path = os.path.join(VERIF, "KNOWN_FINDINGS.txt")
     res = []
     if os.path.exists(path):
         for line in open(path):
